@@ -21,7 +21,7 @@ RULE = ("plan = two independent initial lists (0..5 and 0..4 items) + history of
         "with the receiver is unchanged; edit results and deep copies are not obsolete. Non-trivial: an edit on a list at "
         "derivation depth ≥ 2, or an edit on one of two branches of a list, or a deepcopy between derivation and edit. "
         "Distinct = plan hash.")
-CASES = {"quick": 1500, "thorough": 4000}
+CASES = {"quick": 1500, "thorough": 8000}
 
 WARNING = "Warning: A successor has modified the shared dicts"
 
